@@ -398,7 +398,7 @@ def run(tier: str, seed: int, workers: int):
     for e in pool_events(tier):
         shards.append(("pool", tier, e, pool_depth))
     acc = pmap_acc(_dispatch, shards, workers)
-    acc.merge(fetcher_shard(None))
+    acc.merge(pmap_acc(fetcher_shard, [None], 1))
     meta = {
         "rule": "n batteries (quick 1-2, thorough 1-3), each from capacity {0,1000,3000} x SoC {0,5,20,50,80,100} x limits "
         "{(20,80),(0,100),(50,50)} x a missing-metric pattern (or absent from the data), every working subset; each case "
